@@ -55,6 +55,7 @@ unsigned long thread_allocs();          // allocations by the calling thread sin
 // exclusion list set by config (used by C20 to separate ready-queue deque growth)
 unsigned long thread_allocs_excluding();
 void exclude_alloc_fn(const void *fn_addr_lo, const void *fn_addr_hi);
+void set_heap_fill(int byte);           // content of fresh heap blocks for this run (default 0xCD)
 
 // ---------------------------------------------------------------- configuration (call first thing in scenario)
 struct Config {
